@@ -1,4 +1,4 @@
-// C11 part 1: instantiations for 16/32-bit integers
+// C11 part 1: instantiations for mpz_class
 #include "harness/c11_cells.hh"
 namespace c11 {
 using namespace PPL;
@@ -16,5 +16,5 @@ template <class T> static void reg_mp() {
   Runner<CNW<T, PD> >::register_all(); Runner<CNW<T, PW> >::register_all();
   Runner<CNW<T, Checked_Number_Transparent_Policy<T> > >::register_all(); Runner<RAWW<T> >::register_all();
 }
-void register_int16_32() { reg_int<short>(); reg_int<unsigned short>(); reg_int<int>(); reg_int<unsigned int>(); }
+void register_mpz() { reg_mp<mpz_class>(); }
 }
